@@ -71,6 +71,10 @@ type Relay struct {
 	Leak func(msg []byte) bool
 	// slowClose: how long CloseSend on a receive stream takes (nanoseconds;
 	// a half-close that has to wait for the transport).
+	// failNext: how many of the next Send calls on a stream fail with a
+	// stream error (each also detaches the writer, as a broken connection to
+	// the relay would): several in a row make the sender's retry fail too
+	failNext      map[string]int
 	slowClose     atomic.Int64
 	slowSendClose atomic.Int64
 }
@@ -117,6 +121,16 @@ func (r *Relay) Exists(sid []byte) bool {
 	return ok
 }
 
+// FailSends makes the next k Send calls on the stream fail.
+func (r *Relay) FailSends(sid []byte, k int) {
+	r.mu.Lock()
+	if r.failNext == nil {
+		r.failNext = map[string]int{}
+	}
+	r.failNext[sidOf(sid)] = k
+	r.mu.Unlock()
+}
+
 // Break ends the current reader and writer attachments of a stream with an
 // error, as a network failure between the parties and the relay would.
 func (r *Relay) Break(sid []byte, reader, writer bool) {
@@ -140,6 +154,33 @@ func (r *Relay) Break(sid []byte, reader, writer bool) {
 		rs.fail(errors.New("rpc error: code = Unavailable desc = transport is closing"))
 	}
 	if ws != nil {
+		ws.fail()
+	}
+}
+
+// Restart loses all state, as a restart of the relay process does: every
+// attachment ends with an error and every mailbox (with what it held) is gone.
+func (r *Relay) Restart() {
+	r.mu.Lock()
+	var rss []*recvStream
+	var wss []*sendStream
+	for id, s := range r.streams {
+		if s.reader != nil {
+			rss = append(rss, s.reader)
+			s.reader = nil
+		}
+		if s.writer != nil {
+			wss = append(wss, s.writer)
+			s.writer = nil
+		}
+		delete(r.streams, id)
+		r.emit("delbox", id, 0, "restart")
+	}
+	r.mu.Unlock()
+	for _, rs := range rss {
+		rs.fail(errors.New("rpc error: code = Unavailable desc = transport is closing"))
+	}
+	for _, ws := range wss {
 		ws.fail()
 	}
 }
@@ -336,6 +377,17 @@ func (ws *sendStream) Send(box *hashmailrpc.CipherBox) error {
 	sid := sidOf(box.Desc.StreamId)
 	r := ws.r
 	r.mu.Lock()
+	if r.failNext[sid] > 0 {
+		r.failNext[sid]--
+		if ws.s != nil && ws.s.writer == ws {
+			ws.s.writer = nil
+		}
+		ws.opened = true
+		r.emit("sendFail", sid, len(box.Msg), "")
+		r.mu.Unlock()
+		ws.fail()
+		return io.EOF
+	}
 	if !ws.opened {
 		// the server looks the stream up when the first message arrives;
 		// if that fails the message is lost and later sends fail
